@@ -9,6 +9,7 @@
 (* Conjuncts (each tagged with the property it belongs to):                                   *)
 (*   C01 SentOK     sent = <<Request(op, args)>> for an accepted call (all 64 bytes)            *)
 (*   C07 RejectOK   nothing sent and an error returned  <=>  Reject(op, args)                   *)
+(*   C02 ResultOK   the returned value is an acceptable interpretation of the delivered reply    *)
 (*   C04 NoPanic / RenderOK                                                                    *)
 EXTENDS TraceKit, Api
 
@@ -32,8 +33,19 @@ CheckNoPanic(e) ==
 W26Expected == [f \in 1..256 |-> <<U32(IF f = 1 THEN 1 ELSE (f - 1) * 100000), U32((f - 1) * 100000 + 65535)>>]
 CheckW26(e) == Judge("C07", "W26AcceptSet", e.intervals = W26Expected, e.n, 256)
 
+\* C02: a single delivered datagram that follows a correct 4+4 byte header (64 bytes, protocol id,
+\* the operation's function code, the addressed serial number) must be interpreted per Api!ResultOK
+HeaderCorrect(e, msg) == /\ Len(msg) = 64 /\ HeaderOK(Rsp[e.op], msg) /\ Field(msg, 4, 4) = LE32(e.a.serial)
+CheckResult(e) ==
+  IF e.op \in ReplyOps \ {"GetDevices"} /\ ~Reject(e.op, e.a) /\ Has(e, "cfg") /\ Len(e.delivered) = 1 /\ e.ret.t # "panic"
+    THEN LET msg == e.delivered[1].b IN
+         IF HeaderCorrect(e, msg)
+           THEN Judge("C02", "ResultOK", ResultOK(e.op, e.a, e.cfg, msg, e.ret), e.ret, DecodeFields(Rsp[e.op], msg))
+           ELSE TRUE
+    ELSE TRUE
+
 Check(e) == IF e.op = "W26Intervals" THEN CheckW26(e)
-            ELSE CheckSent(e) /\ CheckReject(e) /\ CheckNoPanic(e)
+            ELSE CheckSent(e) /\ CheckReject(e) /\ CheckNoPanic(e) /\ CheckResult(e)
 
 TraceNext == l <= Len(Trace) /\ Check(Trace[l]) /\ l' = l + 1
 ========================================================================
